@@ -33,10 +33,14 @@ def alphabet(U):
         ops.append(("add_node", lambda net, i=i: net.add_node(N[i]), ("add_node", i)))
     ops.append(("add_nodes", lambda net: net.add_nodes([N[0], N[2]]), ("add_nodes", (0, 2))))
     ops.append(("add_nodes", lambda net: net.add_nodes(N), ("add_nodes", (0, 1, 2))))
+    ops.append(("add_nodes", lambda net: net.add_nodes(n for n in N), ("add_nodes", "generator 0,1,2")))
+    ops.append(("add_nodes", lambda net: net.add_nodes(iter([N[1], N[2]])), ("add_nodes", "iterator 1,2")))
     for (k, i, j) in ((0, 0, 1), (1, 1, 2), (2, 0, 2), (0, 1, 2), (1, 0, 1), (2, 2, 0), (0, 1, 1), (2, 0, 1)):
         ops.append(("add_link", lambda net, k=k, i=i, j=j: net.add_link(N[i], L[k], N[j]), ("add_link", i, k, j)))
     ops.append(("add_links", lambda net: net.add_links([(N[0], L[0], N[1]), (N[1], L[1], N[2])]), ("add_links", "01,12")))
     ops.append(("add_links", lambda net: net.add_links([(N[0], L[2], N[1])]), ("add_links", "0-2-1")))
+    ops.append(("add_links", lambda net: net.add_links(t for t in [(N[1], L[0], N[2]), (N[2], L[2], N[0])]), ("add_links", "generator 1a2,2c0")))
+    ops.append(("add_links", lambda net: net.add_links(zip([N[0]], [L[1]], [N[2]])), ("add_links", "zip 0b2")))
     ops.append(("add_links", lambda net: net.add_links([(N[2], L[1], N[0]), (N[0], L[1], N[2])]), ("add_links", "shared")))
     for k in range(2):
         for i in range(3):
